@@ -667,6 +667,9 @@ class PathSearch:
             if dl is not None and dl in self.flags:
                 self._swkey[s] = ("flag", dl)
                 continue
+            if root.k == "local" and root.extra in self.flags and b.local_ty(root.extra) == "bool":
+                self._swkey[s] = ("flagroot", root.extra)
+                continue
             if root.k == "local" and any(l == root.extra for (l, _) in self.vdefs.values()):
                 self._swkey[s] = ("var", root.extra)
                 continue
@@ -793,6 +796,11 @@ class PathSearch:
                             if cur is not None:
                                 if not _label_matches(n, label, cur):
                                     continue
+                        elif key[0] == "flagroot":
+                            cur = dict(new_env).get(("flag", key[1]))
+                            v = switch_info(b, nid).edge_vals.get(label)
+                            if cur is not None and v is not None and v != ("true" if cur else "false"):
+                                continue
                         elif key[0] == "var":
                             cur = dict(new_env).get(key)
                             v = switch_info(b, nid).edge_vals.get(label)
